@@ -279,6 +279,69 @@ def oracle_value(case):
     return "ok"
 
 
+def _ticket_views(ct, tv):
+    """A ticket value received from outside (parameter / storage / big_map value) at content type ct: what READ_TICKET sees and how
+    the ticket renders, as Tezos values of `pair address <content> nat`."""
+    from pytezos.michelson.stack import MichelsonStack
+    cls = _cls(rv.T("ticket", ct))
+    obj = cls.from_micheline_value(tv)
+    shape = rv.pair_t(rv.T("address"), norm_type(ct), rv.T("nat"))
+    out = {"optimized": rv.from_micheline(shape, obj.to_micheline_value(mode="optimized")),
+           "readable": rv.from_micheline(shape, obj.to_micheline_value(mode="readable"))}
+    stack = MichelsonStack()
+    stack.push(obj)
+    stk, _, err = interp.run([{"prim": "READ_TICKET"}], stack=stack)
+    if err is not None:
+        raise RuntimeError("READ_TICKET failed: %r" % (err.args,))
+    ty, m = interp.read_item(stk.items[0])
+    out["read"] = rv.from_micheline(shape, m)
+    return out
+
+
+def oracle_ticket(case):
+    ct, tv = case["ct"], case["v"]
+    try:
+        base = _ticket_views(ct, tv)
+    except Exception as e:
+        raise Violation("a ticket value %s of content type %s is not usable (%r) without annotations" % (tv, ct, e), case, "ticket:base-raise")
+    shape = rv.pair_t(rv.T("address"), ct, rv.T("nat"))
+    want = rv.from_micheline(shape, tv)
+    for k, v in base.items():
+        if v != want:
+            raise Violation("ticket %s at content type %s: %s gives %r, the value is %r" % (tv, ct, k, v, want), case, "ticket:base-" + k)
+    for at in case["annotated"]:
+        try:
+            got = _ticket_views(at, tv)
+        except Exception as e:
+            raise Violation("ticket %s: fine at content type %s, fails (%r) at the annotated content type %s" % (tv, ct, e, at), case,
+                            "ticket:raise:%s" % type(e).__name__)
+        for k in base:
+            if got[k] != base[k]:
+                raise Violation("ticket %s: %s is %r under content type %s and %r without annotations" % (tv, k, got[k], at, base[k]), case,
+                                "ticket:" + k)
+    return "ok"
+
+
+@st.composite
+def ticket_cases(draw):
+    ct = draw(gt.comparable_types(2, ["int", "nat", "string", "bytes", "bool", "unit"]))
+    if ct["prim"] != "pair" and draw(st.booleans()):
+        ct = rv.T("pair", ct, draw(gt.comparable_types(1, ["nat", "string", "int"])))
+    c = draw(gt.values(ct))
+    amount = draw(st.integers(1, 10 ** 6))
+    addr = rv.from_micheline(rv.T("address"), {"string": "KT1BEqzn5Wx8uJrZNvuS9DVHmLvG9td3fDLi"})
+    shape = rv.pair_t(rv.T("address"), ct, rv.T("nat"))
+    tv = rv.to_micheline(shape, (addr, (c, amount)))
+    if draw(st.booleans()):  # the other legal spelling of a comb of three
+        tv = {"prim": "Pair", "args": [tv["args"][0], {"prim": "Pair", "args": tv["args"][1:]}]} if len(tv.get("args", [])) == 3 else tv
+    return {"kind": "ticket", "ct": ct, "v": tv, "annotated": [draw(gt.decorate(ct, False, 0.5, 0.4)) for _ in range(2)]}
+
+
+def _prop_ticket(case, stats):
+    oracle_ticket(case)
+    stats.case([case["ct"], case["v"], case["annotated"]], case["ct"]["prim"] == "pair", "ticket-value", sample={"content": case["ct"], "value": case["v"]})
+
+
 @st.composite
 def value_cases(draw, depth):
     shape = draw(st.sampled_from(["comb", "comb", "any"]))
@@ -317,7 +380,9 @@ def _prop_value(case, stats):
 
 # ---- entry points ------------------------------------------------------------------------------------------------
 def replay(case):
-    if case.get("kind") == "value":
+    if case.get("kind") == "ticket":
+        oracle_ticket(case)
+    elif case.get("kind") == "value":
         oracle_value(case)
     else:
         oracle_program(case)
@@ -327,6 +392,7 @@ def run(h):
     size, depth = ((1, 7), 2) if h.quick else ((1, 16), 3)
     h.run_given(lambda: program_cases(size, depth), _prop_program, h.n(70, 4000), shards=16, name="programs")
     h.run_given(lambda: value_cases(2 if h.quick else 3), _prop_value, h.n(120, 8000), shards=16, name="values")
+    h.run_given(ticket_cases, _prop_ticket, h.n(40, 3000), shards=16, name="ticket-values")
     h.coverage_extra["comb_instruction_histogram"] = {k[6:]: v for k, v in sorted(h.stats.extra.items())
                                                       if k.startswith("instr:")}
     for k in [k for k in h.stats.extra if k.startswith("instr:")]:
